@@ -183,6 +183,24 @@ def rule_component_wildcards(ctx):
         ctx.check(not _may_match_sep(parsed), cr.fq, f"token {part} ({what}) cannot match '/'", f"{part} is translated to {regex}, which matches '/': the matcher accepts paths in other directories that no file-system scan of the pattern returns, so an incremental update differs from a rescan and a valid output is reported as matched by the pattern", f"{regex}", where=ctx.where_of(cr))
 
 
+def rule_substitution_context(ctx):
+    """R-C17-9: both compilers interpret the substitution of a named wildcard in the same context.
+
+    `**` means 'any number of directories' only as a whole path component; glued to other text it is a plain `*`
+    (Python's glob, and the regex compiler's own `data**` rule).  A compiler that translates the substitution on
+    its own cannot know which of the two applies.
+    """
+    cr = ctx.prog.func("nglob.convert_nglob_to_regex")
+    cg = ctx.prog.func("nglob.convert_nglob_to_glob")
+    iso_r = any(callee_name(c) == "convert_nglob_to_regex" and c.args and "subs.get" in ast.unparse(c.args[0]) for c in calls_in(cr.node))
+    ctx_g = any(callee_name(c) == "extend" and c.args and "RE_ANY_WILD.split" in ast.unparse(c.args[0]) and "subs.get" in ast.unparse(c.args[0]) for c in calls_in(cg.node))
+    iso_g = any(callee_name(c) == "convert_nglob_to_glob" and c.args and "subs.get" in ast.unparse(c.args[0]) for c in calls_in(cg.node))
+    if not (iso_r or ctx_g or iso_g):
+        raise AnalysisError("nglob: substitution handling not recognised in either compiler")
+    same = (iso_r and iso_g and not ctx_g) or (not iso_r and ctx_g)
+    ctx.check(same, "nglob.convert_nglob_to_regex/convert_nglob_to_glob", "a substitution is compiled in context by both compilers, or in isolation by both", f"regex compiler: {'isolated (recursive call on the substitution alone)' if iso_r else 'in context'}; glob compiler: {'tokens of the substitution are merged with their neighbours' if ctx_g else 'isolated'}: for glob('src/${{*mod}}.py', mod='**') the scan evaluates src/**.py (one directory level) while the matcher is src/(?P<mod>.*)\\.py (any depth), so an incremental update records src/pkg/b.py which a rescan drops again", "same context", where=ctx.where_of(cr))
+
+
 def rule_mergers(ctx):
     """R-C17-2."""
     cr = ctx.prog.func("nglob.convert_nglob_to_regex")
@@ -298,6 +316,7 @@ def rule_incremental(ctx):
 
 
 RULES = [
+    Rule("R-C17-9", "substitutions are interpreted in the same context by both compilers", rule_substitution_context, min_instances=1),
     Rule("R-C17-8", "events for paths that a pattern may match reach the incremental update (same relevance as the rescan)", C14.rule_same_filter, min_instances=5),
     Rule("R-C17-6", "single-component wildcards never consume a separator", rule_component_wildcards, min_instances=5),
     Rule("R-C17-1", "token exhaustiveness", rule_tokens, min_instances=15),
